@@ -1,19 +1,35 @@
 /- GENERATED: instance obligations for one logic, discharged by kernel evaluation.
-   `X ⊆ known`: every failing row is a committed known finding (Ptx/Gen/Known.lean). -/
+   `S` = the logic with its DOCUMENTED tables (Ptx/Sem/Spec.lean); rules, closure, trunk and frames
+   are what the translator read off the code.  `X ⊆ known`: every failing row is a committed
+   known finding (Ptx/Gen/Known.lean, generated from known_findings.json). -/
 import Ptx.Gen.L_TK3W
 import Ptx.Gen.Known
 import Ptx.Sem.Subset
+import Ptx.Props.C01
+import Ptx.Gen.L_K3W
 namespace Ptx.Gen.Obl.TK3W
 open Ptx
 
-theorem tables_total : Gen.TK3W.tablesTotalB = true := by decide +kernel
-theorem rules_exact : subsetB Gen.TK3W.badRules (Known.badRules "TK3W") = true := by decide +kernel
-theorem rules_sound : subsetB Gen.TK3W.unsoundRules (Known.unsoundRules "TK3W") = true := by decide +kernel
-theorem rules_total : subsetB Gen.TK3W.missingRules (Known.missingRules "TK3W") = true := by decide +kernel
-theorem rules_local : Gen.TK3W.nonLocalRules = [] := by decide +kernel
-theorem closure_total : Gen.TK3W.closureTotalB = true := by decide +kernel
-theorem closure_exact : subsetB Gen.TK3W.badClosure (Known.badClosure "TK3W") = true := by decide +kernel
-theorem read_total : Gen.TK3W.readTotalB = true := by decide +kernel
-theorem read_exact : subsetB Gen.TK3W.badRead (Known.badRead "TK3W") = true := by decide +kernel
+/-- a modal / first-order extension has exactly the truth-functional tables of its base (K3W) -/
+theorem base_tables : Gen.TK3W.tables.sameTF Gen.K3W.tables = true := by decide +kernel
+theorem spec_defined : Gen.TK3W.specDefinedB = true := by decide +kernel
+theorem tables_spec : subsetB Gen.TK3W.tableDiff (Known.tableDiff "TK3W") = true := by decide +kernel
+theorem defined_ops : Gen.TK3W.tables.definedOpsBad = [] := by decide +kernel
+theorem tables_total : Gen.TK3W.sem.tablesTotalB = true := by decide +kernel
+theorem rules_exact : subsetB Gen.TK3W.sem.badRules (Known.badRules "TK3W") = true := by decide +kernel
+theorem rules_sound : subsetB Gen.TK3W.sem.unsoundRules (Known.unsoundRules "TK3W") = true := by decide +kernel
+theorem rules_total : subsetB Gen.TK3W.sem.missingRules (Known.missingRules "TK3W") = true := by decide +kernel
+theorem rules_local : Gen.TK3W.sem.nonLocalRules = [] := by decide +kernel
+theorem closure_total : Gen.TK3W.sem.closureTotalB = true := by decide +kernel
+theorem closure_exact : subsetB Gen.TK3W.sem.badClosure (Known.badClosure "TK3W") = true := by decide +kernel
+theorem read_total : Gen.TK3W.sem.readTotalB = true := by decide +kernel
+theorem read_exact : subsetB Gen.TK3W.sem.badRead (Known.badRead "TK3W") = true := by decide +kernel
+theorem sound_core : Gen.TK3W.sem.soundCoreB = true := by decide +kernel
+
+/-- C01 for this logic: a closed tableau reached by any legal derivation has no countermodel. -/
+theorem c01_valid_sound (arg : Argument) (t : Tableau)
+    (hd : Deriv Gen.TK3W.sem.soundPart.noQuantPart (trunk Gen.TK3W.sem arg) t) (hclosed : t.allClosed = true)
+    (M : Struct) (hM : M.Interp Gen.TK3W.sem) (e : Env M.D) (w0 : M.W) : ¬ Countermodel Gen.TK3W.sem M e w0 arg :=
+  Props.C01.C01_valid_sound_partial Gen.TK3W.sem sound_core arg t hd hclosed M hM e w0
 
 end Ptx.Gen.Obl.TK3W
